@@ -363,6 +363,11 @@ func (w *twkbWriter) writeMultiPoint(mp MultiPoint) error {
 
 	for i := 0; i < numPoints; i++ {
 		pt := mp.PointN(i)
+		if pt.IsEmpty() {
+			// TWKB has no representation for an empty Point inside a
+			// MultiPoint (each member is just its ordinates).
+			return fmt.Errorf("cannot encode MultiPoint containing an empty Point (member %d)", i)
+		}
 		w.writePointCoords(pt)
 	}
 	return nil
